@@ -49,7 +49,8 @@ def meanVec (vs : List (Nat → α)) : Nat → α :=
 
 /-- `m − m.mean(axis=1)`: remove the mean over the `P` channels from a pattern -/
 def centre (P : Nat) (x : Nat → α) : Nat → α :=
-  fun k => x k - sumR P x / ((P : Nat) : α)
+  -- generated from `measurements_train -= measurements_train.mean(axis=1, keepdims=True)`
+  fun k => Rsa.Gen.C02.centreTrain (x k) (sumR P x / ((P : Nat) : α))
 
 /-- prior regularisation of a rate pattern: `(m + λ₀·w) / (1 + w)` -/
 def reg (lam0 w : α) (x : Nat → α) : Nat → α :=
@@ -64,7 +65,8 @@ def kern (P : Nat) (N : Nat → Nat → α) (u v : Nat → α) : α :=
 
 /-- `u @ log(v)ᵀ` -/
 def pkern (lg : α → α) (P : Nat) (u v : Nat → α) : α :=
-  sumR P (fun k => u k * lg (v k))
+  -- summand generated from `kernel = measurements_train @ np.log(measurements_test).T`
+  sumR P (fun k => Rsa.Gen.C02.poissonKernel (u k) (lg (v k)))
 
 /-- plain dot product over `P` channels -/
 def dotP (P : Nat) (u v : Nat → α) : α := sumR P (fun k => u k * v k)
@@ -81,7 +83,8 @@ def noiseShapeOk (P : Nat) (m : List (List α)) : Bool :=
 
 /-- `(A + B) / 2` entrywise, on matrices given as data -/
 def matAvg (A B : List (List α)) : List (List α) :=
-  List.zipWith (List.zipWith (fun a b => (a + b) / ((2 : Nat) : α))) A B
+  -- entry generated from `(variances[i_fold] + variances[j_fold]) / 2`
+  List.zipWith (List.zipWith (fun a b => Rsa.Gen.C02.pairCov a b)) A B
 
 /-- `k_aa + k_bb − k_ab − k_ba` written on the four patterns involved:
     `κ` applied to (left pattern of a, right pattern of a) etc. -/
@@ -126,7 +129,23 @@ def occFrom [DecidableEq β] (seen : List β) : List β → List Nat
 def defaultCv [DecidableEq β] (l : List β) : Option (List Nat) :=
   match l with
   | [] => some []
-  | c0 :: _ => if l.all (fun c => l.count c = l.count c0) then some (occFrom [] l) else none
+  | c0 :: _ =>
+    -- test generated from `assert np.all(counts == counts[0])`
+    if l.all (fun c => Rsa.Gen.C02.countsOk (l.count c) (l.count c0) = 1) then some (occFrom [] l)
+    else none
+
+/-- the positions visited by `for i in range(start(n), stop(n))` applied to a list of length n -/
+def loopOver (start stop : Nat → Nat) (l : List β) : List β :=
+  (l.drop (start l.length)).take (stop l.length - start l.length)
+
+/-- the index pairs visited by the fold-pair loops of the per-fold-precision branch, built from
+    the generated loop headers: `for i in range(o₀, o₁): for j in range(s(i), t(i)): if g(i, j):` -/
+def loopPairs (n : Nat) : List (Nat × Nat) :=
+  (List.range' (Rsa.Gen.C02.pairOuterStart n)
+      (Rsa.Gen.C02.pairOuterStop n - Rsa.Gen.C02.pairOuterStart n)).flatMap (fun i =>
+    ((List.range' (Rsa.Gen.C02.pairInnerStart i n)
+        (Rsa.Gen.C02.pairInnerStop i n - Rsa.Gen.C02.pairInnerStart i n)).filter
+      (fun j => Rsa.Gen.C02.pairGuard i j = 1)).map (fun j => (i, j)))
 
 end labels
 
@@ -157,7 +176,8 @@ def foldsOf (D : List (Obs L F α)) : List F := sortedDistinct (D.map (·.fold))
 def single (κ : (Nat → α) → (Nat → α) → α) (P : Nat)
     (m1 m2 : List (Nat → α)) : List α :=
   (pairsOf (m1.zip m2)).map
-    (fun pq => kdiff κ pq.1.1 pq.2.1 pq.1.2 pq.2.2 / ((P : Nat) : α))
+    -- normaliser generated from `return _extract_triu_(rdm) / meas1.shape[1]`
+    (fun pq => Rsa.Gen.C02.singleNorm (kdiff κ pq.1.1 pq.2.1 pq.1.2 pq.2.2) ((P : Nat) : α))
 
 /-- one iteration of the leave-one-fold-out loop for test fold `f` -/
 def lofoFold (T : (Nat → α) → (Nat → α)) (κ : (Nat → α) → (Nat → α) → α) (P : Nat)
@@ -222,6 +242,55 @@ def foldPrecAlgo (inv : List (List α) → List (List α)) (removeMean : Bool) (
   (pairLabels Ds).zip (colMean rdms)
 
 end algo
+
+/-! ### `np.linalg.inv` by certificate
+
+The per-fold-precision branch inverts matrices.  Above, `inv` is an arbitrary function.  Here
+it is made concrete *without* modelling LAPACK: any candidate `cand A` is accepted only together
+with the exact check `A · cand A = I` on the `P × P` block (and shape `P × P`); a failed check
+is the code's `LinAlgError`.  A matrix that passes the check *is* the inverse (uniqueness), so
+everything provable about the true inverse (symmetry, commuting with a simultaneous row /
+column permutation) holds for whatever the candidate function is. -/
+
+section cert
+variable {L F α : Type} [DecidableEq L] [LT L] [DecidableLT L]
+  [DecidableEq F] [LT F] [DecidableLT F]
+  [Add α] [Sub α] [Mul α] [Div α] [Neg α] [Zero α] [One α] [NatCast α]
+  [LT α] [DecidableLT α] [LE α] [DecidableLE α] [Max α] [Min α] [DecidableEq α]
+
+/-- `(A · B)[j, k]` on the `P × P` block -/
+def mmulP (P : Nat) (A B : Nat → Nat → α) (j k : Nat) : α := sumR P (fun l => A j l * B l k)
+
+/-- exact certificate: `B` has shape `P × P` and `A · B = I` on the `P × P` block -/
+def isInvCert (P : Nat) (A B : List (List α)) : Bool :=
+  noiseShapeOk P B &&
+  (List.range P).all (fun j => (List.range P).all (fun k =>
+    decide (mmulP P (matFn A) (matFn B) j k = eye j k)))
+
+/-- the model's `np.linalg.inv`: the candidate, returned only with its certificate
+    (`none` = singular / `LinAlgError`) -/
+def certInv (cand : List (List α) → List (List α)) (P : Nat) (A : List (List α)) :
+    Option (List (List α)) :=
+  if isInvCert P A (cand A) then some (cand A) else none
+
+/-- total version handed to `foldPrecAlgo` (only used where the certificate holds) -/
+def invOr (cand : List (List α) → List (List α)) (P : Nat) (A : List (List α)) : List (List α) :=
+  (certInv cand P A).getD []
+
+/-- all inversions of the per-fold branch carry their certificate: the `M` precisions and the
+    `M(M−1)/2` averaged covariances -/
+def foldPrecCertsOk (cand : List (List α) → List (List α)) (P : Nat)
+    (Ns : List (List (List α))) : Bool :=
+  Ns.all (fun N => (certInv cand P N).isSome) &&
+  (pairsOf (Ns.map (invOr cand P))).all (fun vw => (certInv cand P (matAvg vw.1 vw.2)).isSome)
+
+/-- `calc_rdm_crossnobis` with one precision per fold and the certified inverse;
+    `none` = some matrix was singular (`LinAlgError`) -/
+def foldPrecCert (cand : List (List α) → List (List α)) (removeMean : Bool) (P : Nat)
+    (Ns : List (List (List α))) (D : List (Obs L F α)) : Option (List ((L × L) × α)) :=
+  if foldPrecCertsOk cand P Ns then some (foldPrecAlgo (invOr cand P) removeMean P Ns D) else none
+
+end cert
 
 /-! ### the specification -/
 
